@@ -38,7 +38,7 @@ var c17Users = []seedUser{
 }
 
 func genPolicyPW(t *rapid.T, user string) (string, string) {
-	cls := rapid.SampledFrom([]string{"dictionary", "walk", "date", "username", "l33t", "repeat", "random", "random-long", "unicode", "phrase", "current"}).Draw(t, "pwcls")
+	cls := rapid.SampledFrom([]string{"dictionary", "walk", "date", "username", "l33t", "repeat", "random", "random-long", "unicode", "phrase", "current", "weak-prefix-strong-tail", "very-long"}).Draw(t, "pwcls")
 	switch cls {
 	case "dictionary":
 		return rapid.SampledFrom([]string{"password", "letmein", "dragon", "monkey", "sunshine", "princess", "football", "trustno1", "correct", "horse"}).Draw(t, "w"), cls
@@ -56,6 +56,12 @@ func genPolicyPW(t *rapid.T, user string) (string, string) {
 		return rapid.StringMatching(`[a-zA-Z0-9!#$%&*+,./:;=?@^_~-]{4,12}`).Draw(t, "w"), cls
 	case "random-long":
 		return rapid.StringMatching(`[a-zA-Z0-9!#$%&*+,./:;=?@^_~-]{13,40}`).Draw(t, "w"), cls
+	case "weak-prefix-strong-tail":
+		// the strength lies beyond the first 32 / 64 / 72 / 128 bytes
+		n := rapid.SampledFrom([]int{32, 64, 65, 72}).Draw(t, "prefixlen")
+		return strings.Repeat(rapid.SampledFrom([]string{"a", "ab", "1"}).Draw(t, "unit"), n)[:n] + rapid.StringMatching(`[a-zA-Z0-9!#$%&*+,./:;=?@^_~-]{14,24}`).Draw(t, "tail"), cls
+	case "very-long":
+		return rapid.StringMatching(`[a-zA-Z0-9 !#$%&*+,./:;=?@^_~-]{65,90}`).Draw(t, "w"), cls
 	case "unicode":
 		return rapid.SampledFrom([]string{"pässwörd", "пароль", "密码密码密码", "ünïcödé-ßtraße-42", "🔑🔑🔑🔑"}).Draw(t, "w"), cls
 	case "phrase":
